@@ -19,3 +19,13 @@ Theorem C19_batch_tables_are_a_fold :
     batch_write_tables lm s c ts un =
     (fold_left (fun c tr => fold_left (fun c r => fst (single lm s c (fst tr) r)) (snd tr) c) ts c, un, None).
 Proof. exact batch_tables_is_fold. Qed.
+
+(* BatchGetItem (SDK v2; the v1 client has none: known finding C19-2): with no emulated failure it answers, per table and
+   in request order, exactly with the items the individual GetItem calls return for the requested keys, and leaves the
+   client unchanged.  (That it ALSO lists the keys without a stored item as unprocessed is known finding C19-1.) *)
+Theorem C19_batch_get_is_the_individual_gets :
+  forall c reqs,
+    c_failure c = None ->
+    exists unprocessed,
+      batch_get V2 c reqs = (c, ok_obs (PBatchGet (map (fun tk => (fst tk, gets c (fst tk) (snd tk))) reqs) unprocessed) []).
+Proof. exact batch_get_is_gets. Qed.
